@@ -235,7 +235,35 @@ func vHavocWalk(path string, v reflect.Value, maxStr int) {
 		for i := 0; i < v.Len(); i++ {
 			vHavocWalk(fmt.Sprintf("%s[%d]", path, i), v.Index(i), maxStr)
 		}
+	case reflect.Slice:
+		if !vHavocable(v.Type().Elem()) {
+			return
+		}
+		n := int(vModel["choice:"+path+".len"])
+		sl := reflect.MakeSlice(v.Type(), n, n)
+		for i := 0; i < n; i++ {
+			vHavocWalk(fmt.Sprintf("%s[%d]", path, i), sl.Index(i), maxStr)
+		}
+		v.Set(sl)
 	}
+}
+
+func vHavocable(t reflect.Type) bool {
+	switch t.Kind() {
+	case reflect.Bool, reflect.Int, reflect.Int8, reflect.Int16, reflect.Int32, reflect.Int64,
+		reflect.Uint, reflect.Uint8, reflect.Uint16, reflect.Uint32, reflect.Uint64, reflect.Uintptr, reflect.String:
+		return true
+	case reflect.Struct:
+		for i := 0; i < t.NumField(); i++ {
+			if !vHavocable(t.Field(i).Type) {
+				return false
+			}
+		}
+		return true
+	case reflect.Array:
+		return vHavocable(t.Elem())
+	}
+	return false
 }
 
 // vSetupOnce runs f once per engine worker outside the path journal (the
